@@ -1,6 +1,8 @@
-"""C06 crash atomicity: Crash.tla (mutation sequences, crash points, what must be found afterwards). The harness enumerates
-every crash point of every write path in child processes that die at that point (object / ref mutations through a decorator
-of repository.ClockedRepo, clock-file operations through the local-storage hook); TLC judges the records."""
+"""C06 crash atomicity: Crash.tla (mutation sequences tagged with the entity whose ref they move, crash points, what must be
+found afterwards, entity by entity). The harness enumerates every crash point of every write path in child processes that die
+at that point (object / ref mutations through a decorator of repository.ClockedRepo, clock-file operations through the
+local-storage hook), for a catalogue of calls and for generated ones (commits with several authors, identities with several
+versions, pulls that create / fast-forward / merge several entities at once); TLC judges the records."""
 import json
 import os
 
@@ -8,63 +10,101 @@ from . import tv
 from .core import Broken
 
 
+def what_of(ev):
+    kind = ev["mutations"][ev["k"] - 1]["kind"] if ev["k"] <= ev["n"] else "end"
+    bad = sorted(e for e, v in ev["outcome"].items() if v not in ("unchanged", "pre", "post"))
+    if ev["openerr"]:
+        what = "repository does not open: " + ev["openerr"]
+    elif ev["readerr"]:
+        what = "entity unreadable: " + ev["readerr"]
+    elif not ev["clockok"]:
+        what = "clock: " + ev["clockwhy"]
+    elif ev["redo"] == "other":
+        what = "repeating the call does not complete it: " + ev["redoerr"]
+    elif ev.get("redo2") == "other":
+        what = "interrupting the repeated call: " + ev["redo2err"]
+    elif bad:
+        what = "entity %s is neither in its old nor in its new state (%s)" % (", ".join(bad), ev["state"][:300])
+    else:
+        what = "entities %s are not in the state the ref updates done so far prescribe (%s)" % (
+            {e: v for e, v in ev["outcome"].items() if v != "unchanged"}, ev["state"][:300])
+    return kind, what
+
+
+def gen_kind(name):
+    return ":".join(name.split(":")[:2]) if name.startswith("gen:") else name
+
+
 def run(c):
-    c.tlc_model("MC_Crash", "MC_Crash.cfg", timeout=600, label="all write paths <= 3 packs x all crash points, atomic clock writes")
+    c.tlc_model("MC_Crash", "MC_Crash.cfg", timeout=600, label="all write paths <= 3 packs, 1-2 entities per call, removals x all crash points; atomic clock writes, one ref update per entity")
     r = c.tlc("MC_Crash", "MC_Crash_inplace.cfg", timeout=600, label="witness: in-place clock writes must be reported unsafe by the model")
     if r.violated != "ClockNeverTorn":
         raise Broken("the model does not distinguish atomic from in-place clock writes (vacuity guard)")
+    r = c.tlc("MC_Crash", "MC_Crash_refperpack.cfg", timeout=600, label="witness: a ref update after every pack must be reported unsafe by the model")
+    if r.violated != "CrashAtomic":
+        raise Broken("the model does not distinguish one ref update per entity from one per pack (vacuity guard)")
     out = os.path.join(c.scratch, "crash.ndjson")
-    c.vh(["crash", out], timeout=3000)
+    ngen = 3 if c.tier == "quick" else 60
+    c.vh(["crash", out, ngen], timeout=6000, env={"VERIF_TIER": c.tier})
     lines = [l.rstrip("\n") for l in open(out)]
-    if len(lines) < 50:
+    if len(lines) < 200:
         raise Broken("only %d crash records" % len(lines))
     recs = [json.loads(l) for l in lines]
-    n_ok, failures = tv.validate_dropping(c, "CrashTrace", "CrashTrace.cfg", lines, "crash", max_fail=40)
+    n_ok, failures = tv.validate_dropping(c, "CrashTrace", "CrashTrace.cfg", lines, "crash", max_fail=60)
     c.cov["traces_validated_against_impl"] = n_ok
     c.cov["crash_points"] = len(recs)
-    c.cov["scenarios"] = sorted({r["scenario"] for r in recs})
-    c.cov["mutation_kinds_seen"] = sorted({m for r in recs for m in r["mutations"]})
+    c.cov["scenarios"] = len({r["scenario"] for r in recs})
+    c.cov["scenario_kinds"] = sorted({gen_kind(r["scenario"]) for r in recs})
+    c.cov["mutation_kinds_seen"] = sorted({m["kind"] for r in recs for m in r["mutations"]})
+    c.cov["max_entities_moved_by_one_call"] = max(len({m["ent"] for m in r["mutations"] if m["ent"]}) for r in recs)
+    c.cov["second_crash_during_repeat"] = sum(1 for r in recs if r.get("redo2"))
     c.cov["exhaustive"] = True
-    c.cov["samples"].append({"scenario": recs[0]["scenario"], "k": recs[0]["k"], "mutations": recs[0]["mutations"], "outcome": recs[0]["outcome"], "redo": recs[0]["redo"]})
-    pdm = [r for r in recs if r["scenario"] == "pull-diverged-merge"] or recs
-    mid = pdm[len(pdm) // 2]
-    c.cov["samples"].append({"scenario": mid["scenario"], "k": mid["k"], "interrupted": mid["mutations"][mid["k"] - 1] if mid["k"] <= mid["n"] else "none", "outcome": mid["outcome"], "clockok": mid["clockok"]})
+    multi = [r for r in recs if len({m["ent"] for m in r["mutations"] if m["ent"]}) >= 3]
+    if not multi:
+        raise Broken("no call moved three entities: the multi-entity part of the model was not exercised")
+    for need in ("ref", "rmref", "rmtrack", "blob", "tree", "commit", "fs-rename"):
+        if need not in c.cov["mutation_kinds_seen"]:
+            raise Broken("mutation kind %s never observed" % need)
+    c.cov["samples"].append({"scenario": recs[0]["scenario"], "k": recs[0]["k"], "mutations": [m["kind"] + (":" + m["ent"] if m["ent"] else "") for m in recs[0]["mutations"]],
+                             "outcome": recs[0]["outcome"], "redo": recs[0]["redo"]})
+    mid = multi[len(multi) // 2]
+    c.cov["samples"].append({"scenario": mid["scenario"], "k": mid["k"], "interrupted": mid["mutations"][mid["k"] - 1] if mid["k"] <= mid["n"] else "none",
+                             "outcome": mid["outcome"], "clockok": mid["clockok"]})
     seen = set()
     for ev, reason in failures:
-        kind = ev["mutations"][ev["k"] - 1] if ev["k"] <= ev["n"] else "end"
-        if ev["openerr"]:
-            what = "repository does not open: " + ev["openerr"]
-        elif ev["readerr"]:
-            what = "entity unreadable: " + ev["readerr"]
-        elif not ev["clockok"]:
-            what = "clock: " + ev["clockwhy"]
-        elif ev["redo"] == "other":
-            what = "repeating the call does not complete it: " + ev["redoerr"]
-        else:
-            what = "state after the crash is '%s' (%s)" % (ev["outcome"], ev["state"][:200])
-        key = "crash:%s:%s:%s" % (ev["scenario"], kind, what.split(":")[0])
+        kind, what = what_of(ev)
+        key = "crash:%s:%s:%s" % (gen_kind(ev["scenario"]), kind, what.split(":")[0][:60])
         if key in seen:
             continue
         seen.add(key)
         c.report(key, "scenario %s, process dies at mutation %d of %d (%s): %s" % (ev["scenario"], ev["k"], ev["n"], kind, what),
-                 {"scenario": ev["scenario"], "k": ev["k"], "record": {k: ev[k] for k in ev if k != "state"}})
-    bad = json.loads(lines[3])
-    bad["outcome"] = "post" if bad["outcome"] == "pre" else "pre"
+                 {"scenario": ev["scenario"], "k": ev["k"], "tear": ev["tear"], "record": {k: ev[k] for k in ev if k != "state"}})
+    # binding self-test: an entity reported in the wrong state, and a second ref update of the same entity, must be rejected
+    cand = [r for r in recs if "pre" in r["outcome"].values()][0]
+    bad = json.loads(json.dumps(cand))
+    e = [e for e, v in bad["outcome"].items() if v == "pre"][0]
+    bad["outcome"][e] = "post"
     n2, f2 = tv.validate_dropping(c, "CrashTrace", "CrashTrace.cfg", [json.dumps(bad)], "crash-selftest", max_fail=1)
-    c.cov["selftest_rejected"] = len(f2) == 1
-    if len(f2) != 1:
+    bad = json.loads(json.dumps(cand))
+    bad["mutations"] = bad["mutations"] + [{"kind": "ref", "ent": e}]
+    bad["n"] += 1
+    n3, f3 = tv.validate_dropping(c, "CrashTrace", "CrashTrace.cfg", [json.dumps(bad)], "crash-selftest2", max_fail=1)
+    c.cov["selftest_rejected"] = len(f2) == 1 and len(f3) == 1
+    if len(f2) != 1 or len(f3) != 1:
         raise Broken("crash record self-test failed")
     c.assumptions += ["go-git's own object and ref writes are atomic (temp file + rename, ref lock files): crash points lie between git-bug's calls",
-                      "states are compared structurally (operation kinds, authors, texts): ids differ between runs because of nonces",
-                      "fetch is not interrupted internally (go-git transport trusted); the merges that follow are"]
+                      "states are compared structurally (operation kinds, authors, texts, number of commits under the ref): ids differ between runs because of nonces",
+                      "fetch is not interrupted internally (go-git transport trusted); the merges that follow are",
+                      "a dying child must walk the same sequence of mutation kinds as the reference run (checked; otherwise the run is not evidence)"]
 
 
 def replay(c, rep):
     c.cov["states"] = c.cov["transitions"] = 1
     c.sample(rep["replay"])
     out = os.path.join(c.scratch, "crash.ndjson")
-    c.vh(["crash", out], timeout=3000)
-    lines = [l for l in open(out) if json.loads(l)["scenario"] == rep["replay"]["scenario"] and json.loads(l)["k"] == rep["replay"]["k"]]
-    n_ok, failures = tv.validate_dropping(c, "CrashTrace", "CrashTrace.cfg", [l.rstrip("\n") for l in lines], "replay")
+    c.vh(["crash", out, 0, rep["replay"]["scenario"], rep["replay"]["k"], rep["replay"].get("tear", -1)], timeout=3000, env={"VERIF_TIER": "quick"})
+    lines = [l.rstrip("\n") for l in open(out)]
+    n_ok, failures = tv.validate_dropping(c, "CrashTrace", "CrashTrace.cfg", lines, "replay")
     for ev, reason in failures:
-        c.report(rep["key"], reason, rep["replay"])
+        kind, what = what_of(ev)
+        c.report(rep["key"], "scenario %s, process dies at mutation %d of %d (%s): %s" % (ev["scenario"], ev["k"], ev["n"], kind, what), rep["replay"])
